@@ -6,7 +6,7 @@ VARIABLES s, v
 Init == s \in Schemas /\ v \in Instances
 Next == UNCHANGED <<s, v>>
 Laws ==
-  /\ (s.k = "nullable" => Valid(s, Null) /\ (v.t # "null" => Valid(s, v) = V(s, s.s, v)))
+  /\ (s.k = "nullable" => (Valid(s, Null) = NullListed(s.s)) /\ (v.t # "null" => Valid(s, v) = V(s, s.s, v)))
   /\ (s.k = "anyOf" => Valid(s, v) = (\E i \in 1..Len(s.ss) : Valid(s.ss[i], v)))
   /\ (s.k = "allOf" => (Valid(s, v) => \A i \in 1..Len(s.ss) : Valid(s.ss[i], v)))
   /\ (s.k = "oneOf" => (Valid(s, v) => \E i \in 1..Len(s.ss) : Valid(s.ss[i], v)))
